@@ -53,7 +53,10 @@ LEVEL_NOTE = ("Model = RxModel/Comb.lean + RxModel/CombN.lean (zip: queues/is_co
 "(others-before-primary order, simultaneous events, emit-on-subscribe). Cases with emit-on-subscribe sources are replayed through the phased machines (all unsubscribes of such a "
 "case are compared by (source, time) only: inside the loop they lag until the loop's composite reaches the observer); for all-cold cases the event ORDER is additionally derived in "
 "Lean from the timelines (`tlEvents`) and compared with the recorded one. The phased live list is in subscription order (= container order except for with_latest_from). Not "
-"modelled: futures. Threads are C43.")
+"modelled: futures. Threads are C43. The value alphabet contains elements with non-standard == (always true / always false / raising, NaN), identified by the "
+"(source, index) tag they carry, never by ==. FIXED DEFECT (finding C13-wlf-sentinel-eq, /repo 617932e, fixes/C13_wlf_sentinel_identity.patch): with_latest_from tested its sentinel with `NO_VALUE not in values` "
+"(== asked of every latest value), so a secondary whose latest value has __eq__ always true gave no output and a raising one gave on_error; the model was always the fixed "
+"behaviour, the corpus keeps the two inputs, and a recurrence is reported as VIOLATION classified C13-wlf-sentinel-eq.")
 
 OPS = ["zip", "combine_latest", "with_latest_from", "fork_join", "amb", "amb2"]
 
@@ -66,26 +69,27 @@ def cases(rng, tier):
             k = 2
         else:
             k = rng.choice([1, 2, 2, 3, 3, 4])
-        srcs = [cc.gen_src(rng, j) for j in range(k)]
+        # values with unusual equality (== always True / always False / raising, NaN): nothing in these operators may depend on ==
+        srcs = [cc.gen_src(rng, j, specials=0.15) for j in range(k)]
         c = {"op": op, "n": k, "srcs": srcs, "dispose": cc.gen_dispose(rng, 0.2)}
         if op == "with_latest_from":
             r = rng.random()
             if r < 0.35:
                 # all cold, few distinct times: a primary element often coincides with an element of another source
-                c["srcs"] = [{"mode": "cold", "msgs": cc.gen_timeline(rng, j, maxn=4, span=15)} for j in range(k)]
+                c["srcs"] = [{"mode": "cold", "msgs": cc.gen_timeline(rng, j, maxn=4, span=15, specials=0.15)} for j in range(k)]
                 c["dispose"] = None
             elif r < 0.5:
                 # every source emits inside subscribe (of(1,2,3).pipe(with_latest_from(of(10))))
-                c["srcs"] = [{"mode": "sync", "msgs": cc.gen_timeline(rng, j, maxn=3, span=5, p_complete=0.85, p_error=0.05)} for j in range(k)]
+                c["srcs"] = [{"mode": "sync", "msgs": cc.gen_timeline(rng, j, maxn=3, span=5, p_complete=0.85, p_error=0.05, specials=0.15)} for j in range(k)]
                 c["dispose"] = None
         elif op != "amb2" and rng.random() < 0.12:
             # emit-on-subscribe sources inside the subscribe loop of any static operator (replayed through the PHASED machine)
             for j in range(k):
                 if rng.random() < 0.6:
-                    c["srcs"][j] = {"mode": "sync", "msgs": cc.gen_timeline(rng, j, maxn=3, span=5, p_complete=0.7, p_error=0.12)}
+                    c["srcs"][j] = {"mode": "sync", "msgs": cc.gen_timeline(rng, j, maxn=3, span=5, p_complete=0.7, p_error=0.12, specials=0.15)}
         elif op != "amb2" and rng.random() < 0.2:
             # all cold, few distinct instants: the event ORDER is derived in Lean from the timelines (tlEvents) and compared too
-            c["srcs"] = [{"mode": "cold", "msgs": cc.gen_timeline(rng, j, maxn=4, span=15)} for j in range(k)]
+            c["srcs"] = [{"mode": "cold", "msgs": cc.gen_timeline(rng, j, maxn=4, span=15, specials=0.15)} for j in range(k)]
             c["dispose"] = None
         if not is_phased(c):
             cc.add_duplicate(rng, c["srcs"])      # the same observable object listed twice
@@ -387,6 +391,15 @@ def _disposed_before(log, t):
     return False
 
 
+def classify(case, why):
+    """with_latest_from compares its 'no value yet' sentinel with == (`NO_VALUE not in values`): a latest value of another source whose
+    __eq__ is always true or raises hides / breaks the result (fixes/C13_wlf_sentinel_identity.patch)"""
+    if case["op"] == "with_latest_from" and any(
+            m_[1] == "N" and m_[2]["t"][0] in (".eq_true", ".eq_raises") for s_ in case["srcs"][1:] for m_ in s_["msgs"]):
+        return "C13-wlf-sentinel-eq"
+    return None
+
+
 def nontrivial(case, out):
     sp = out["split"]
     return len(sp["events"]) > 0 and any(seg for seg in sp["segs"])
@@ -404,6 +417,8 @@ def bucket(case, out):
     yield "dispose=" + str(case.get("dispose") is not None)
     if case["op"] == "with_latest_from" and wlf_reference(case) is not None:
         yield "wlf_timeline_oracle=" + case["srcs"][0]["mode"]
+    if any(m_[1] == "N" and (m_[2]["t"][0] in cc.SPECIAL_KINDS or m_[2]["t"][2] == {"f": "nan"}) for s_ in case["srcs"] for m_ in s_["msgs"]):
+        yield "unusual_equality_value"
     if is_phased(case):
         yield "phased_subscribe_loop"
     if has_timelines(case):
